@@ -467,7 +467,7 @@ VARIANTS += [
     # render
     M("losses-colour-from-prev", LAYOUT, "    color = getattr(gene, \"color\", None)\n    prev_species = start_species", "    prev_species = start_species", "COLOR-SOURCE",
       note="second edit moves the read into the loop"),
-    M("losses-left-links-gene", LAYOUT, "            \"left\": prev_gene if is_left else None,", "            \"left\": gene if is_left else None,", "LOSS-CHAIN"),
+    M("losses-left-links-gene", LAYOUT, "            \"left\": prev_gene if is_left else None,", "            \"left\": gene if is_left else None,", "LOSS-WALK"),
     M("colour-paint-descendants-preorder", LAYOUT,
       "        if not hasattr(root_gene, \"color\") and hasattr(root_gene.up, \"color\"):\n            root_gene.add_feature(\"color\", root_gene.up.color)",
       "        if hasattr(root_gene, \"color\"):\n            for sub_gene in root_gene.iter_descendants():\n                if not hasattr(sub_gene, \"color\"):\n                    sub_gene.add_feature(\"color\", root_gene.color)", "COLOR-INHERIT"),
@@ -594,6 +594,35 @@ VARIANTS += [
 ]
 # ---- fourth round: rules derived from the mutation sweep and the fourth batch of seeded changes
 VARIANTS += [
+    Variant("twin-segdist-count-on-close", "utils/subsequences.py", [
+        ("    in_segm = not edges\n    dist = 0\n", "    in_segm = False\n    leading = not edges\n    dist = 0\n"),
+        ("            if not bit_child:\n                if not in_segm:\n                    dist += 1\n                    in_segm = True\n            elif in_segm:\n                in_segm = False\n",
+         "            if not bit_child:\n                in_segm = True\n            else:\n                if in_segm and not leading:\n                    dist += 1\n\n                in_segm = False\n                leading = False\n"),
+        ("    if in_segm and not edges:\n        dist -= 1\n", "    if in_segm and edges:\n        dist += 1\n"),
+    ], (), twin=True, note="a different transducer (runs counted when they close) with the same answers"),
+    Variant("segdist-count-on-close-leading-forgotten", "utils/subsequences.py", [
+        ("    in_segm = not edges\n    dist = 0\n", "    in_segm = False\n    dist = 0\n"),
+        ("            if not bit_child:\n                if not in_segm:\n                    dist += 1\n                    in_segm = True\n            elif in_segm:\n                in_segm = False\n",
+         "            if not bit_child:\n                in_segm = True\n            else:\n                if in_segm:\n                    dist += 1\n\n                in_segm = False\n"),
+        ("    if in_segm and not edges:\n        dist -= 1\n", "    if in_segm and edges:\n        dist += 1\n"),
+    ], ("SEGMENT-MACHINE",)),
+    M("layout-dup-not-registered", LAYOUT, "                    state[\"anchor_nodes\"].add(root_gene)\n                    state[\"anchor_nodes\"].remove(left_gene)", "                    state[\"anchor_nodes\"].remove(left_gene)", "ANCHOR-SET"),
+    M("layout-hgt-remove-foreign", LAYOUT, "state[\"anchor_nodes\"].remove(conserv_gene)", "state[\"anchor_nodes\"].remove(foreign_gene)", "ANCHOR-SET"),
+    M("layout-spe-remove-child", LAYOUT, "                    state[\"anchor_nodes\"].add(root_gene)\n                    state[\"branches\"][root_gene] = {\n                        \"kind\": NodeEvent.SPECIATION,",
+      "                    state[\"anchor_nodes\"].add(root_gene)\n                    state[\"anchor_nodes\"].discard(left_gene)\n                    state[\"branches\"][root_gene] = {\n                        \"kind\": NodeEvent.SPECIATION,", "ANCHOR-SET"),
+    M("layout-leaf-registered-if-named", LAYOUT, "                state[\"anchor_nodes\"].add(root_gene)\n                state[\"branches\"][root_gene] = {\n                    \"kind\": NodeEvent.LEAF,",
+      "                if name:\n                    state[\"anchor_nodes\"].add(root_gene)\n\n                state[\"branches\"][root_gene] = {\n                    \"kind\": NodeEvent.LEAF,", "ANCHOR-SET"),
+    T("twin-layout-hgt-discard", LAYOUT, "state[\"anchor_nodes\"].remove(conserv_gene)", "state[\"anchor_nodes\"].discard(conserv_gene)"),
+    M("losses-side-swapped", LAYOUT, "        is_left = prev_species == start_species.children[0]\n        is_right = prev_species == start_species.children[1]",
+      "        is_left = prev_species == start_species.children[1]\n        is_right = prev_species == start_species.children[0]", "LOSS-WALK"),
+    M("losses-side-hoisted", LAYOUT, "    while start_species != end_species:\n        is_left = prev_species == start_species.children[0]\n        is_right = prev_species == start_species.children[1]\n",
+      "    is_left = prev_species == start_species.children[0]\n    is_right = prev_species == start_species.children[1]\n\n    while start_species != end_species:\n", "LOSS-WALK"),
+    M("losses-prev-species-stale", LAYOUT, "        prev_gene = cur_gene\n        prev_species = start_species\n", "        prev_gene = cur_gene\n", "LOSS-WALK"),
+    M("losses-anchor-dropped", LAYOUT, "        state[\"anchor_nodes\"].add(cur_gene)\n        state[\"branches\"][cur_gene] = {\n            \"kind\": EdgeEvent.FULL_LOSS,", "        state[\"branches\"][cur_gene] = {\n            \"kind\": EdgeEvent.FULL_LOSS,", "LOSS-WALK"),
+    M("losses-state-of-child", LAYOUT, "        state = layout_state[start_species]\n        cur_gene = PseudoGene()", "        state = layout_state[prev_species]\n        cur_gene = PseudoGene()", "LOSS-WALK"),
+    M("losses-stop-early", LAYOUT, "    while start_species != end_species:\n        is_left", "    while start_species.up != end_species:\n        is_left", "LOSS-WALK"),
+    T("twin-losses-for-ancestors", LAYOUT, "    while start_species != end_species:\n        is_left = prev_species == start_species.children[0]",
+      "    while start_species is not end_species:\n        is_left = prev_species == start_species.children[0]"),
     M("model-costs-guard-negated", MODEL, 'if "costs" in data:', 'if "costs" not in data:', "KEY-GUARD"),
     M("model-mapping-guard-negated", MODEL, 'if "leaf_object_species" in data:', 'if "leaf_object_species" not in data:', "KEY-GUARD"),
     T("twin-model-costs-guard-early-default", MODEL, '        if "costs" in data:\n            costs = {}\n',
